@@ -18,6 +18,10 @@ func zeroOf(t types.Type) string {
 		return "(#[] : Go.Bytes)"
 	case lt == "Go.Err":
 		return "Go.Err.nil"
+	case lt == "Go.BigInt" || lt == "Go.BigRat":
+		return "(0 : " + lt + ")" // a nil pointer: never read (analyseBig checks definite assignment)
+	case lt == "Go.BigWords":
+		return "(#[] : Go.BigWords)"
 	case isIntLean(lt):
 		return "(0 : " + lt + ")"
 	}
@@ -270,6 +274,9 @@ func (e *em) stmt(s ast.Stmt, ind string) []string {
 			e.copyStmt(c, ind, &out)
 			return out
 		}
+		if e.bigStmt(call, ind, &out) {
+			return out
+		}
 		if _, ok := e.foreignCall(call); ok {
 			e.flush(ind, &out)
 			return out
@@ -278,6 +285,11 @@ func (e *em) stmt(s ast.Stmt, ind string) []string {
 	case *ast.ReturnStmt:
 		e.ret(s, ind, &out)
 	case *ast.IfStmt:
+		if v, ok := nilDefaultIdiom(s); ok && e.F.bigNilDefaulted(v) {
+			// `if p == nil { p = new(T) }`: a nil argument is represented by the value 0, which
+			// is the value of new(T); the statement is the identity on the value of p
+			return out
+		}
 		if s.Init != nil {
 			out = append(out, e.stmt(s.Init, ind)...)
 		}
